@@ -86,6 +86,6 @@ def queries(tier):
     return qs
 
 MANIFEST = {
-    "text": "Bounded symbolic check of the real core/aio.c under nested schedules: for every outer operation word (submit/complete/abort/expiry pass/stop/close/resubmit-in-callback) and every single operation of another thread run at a symbolic yield point, with symbolic timeout and clock, each submission's callback runs exactly once, a timeout is never reported before the deadline, the result is the first winner's, after nng_aio_stop nothing is pending and later submits fail without reaching the provider.",
+    "text": "Bounded symbolic check of the real core/aio.c under nested schedules (every outer operation word x every single operation of another thread at a symbolic yield point: callback exactly once, never a timeout before the deadline, first winner's result, nothing pending after nng_aio_stop), of its timing rules in sequential words with a shadow deadline that is independent of the aio's fields (which of nng_aio_set_timeout / nng_aio_set_expire decides, zero/infinite/default, nng_sleep_aio within / beyond the aio timeout, a cancel after completion does not reach the next operation), of the real core/taskq.c busy accounting (each dispatch/exec runs the callback exactly once, busy <=> something outstanding, wait returns only then) and of nni_dialer_start_aio / dialer_connect_cb completing the user aio exactly once.",
     "note": "Nesting depth 1 (one foreign operation inside one gap); overlapping critical sections and real task/expire threads are outside; CBMC cannot encode true preemption for this code (pointer handling for concurrency unsound).",
 }
